@@ -522,6 +522,21 @@ class C08:
         for x in one:
             texts.append(('\\p' + x, 'toplevel', None))
             texts.append(('\\P' + x, 'toplevel', None))
+        # enumerated: every sequence of up to 4 nested bracket levels, each negated or not, around a few bases, alone
+        # and next to a sibling item (redundant nesting must not change the set, a negation at any level must)
+        bases = ['b-d', '\\d', '[:alpha:]', '\\pL', 'x', 'a-c\\n']
+        for depth in range(1, 5):
+            for mask in range(1 << depth):
+                for bi, b in enumerate(bases):
+                    if depth >= 3 and (mask + bi) % (2 if tier == 'thorough' else 5) != 0:
+                        continue
+                    t = b
+                    for lvl in range(depth):
+                        t = '[' + ('^' if (mask >> lvl) & 1 else '') + t + ']'
+                    texts.append((t, 'fixed', None))
+                    if depth >= 2 and (mask + bi) % 3 == 0:
+                        inner = t[1:-1] if not t.startswith('[^') else t[2:-1]
+                        texts.append(('[' + ('^' if t.startswith('[^') else '') + 'q' + inner + ']', 'fixed', None))
         for k in ASCII_KINDS:
             texts.append(('[[:%s:]]' % k, 'fixed', None))
             texts.append(('[[:^%s:]]' % k, 'fixed', None))
